@@ -50,14 +50,16 @@ impl Flav {
         }
     }
 }
-const WATCHDOG: Duration = Duration::from_secs(30);
+// 60 s: longer than the harness watchdog's deadlock probe (ctx::enable_deadlock_probe, 35 s + 10 s of sampling), which decides
+// the case where every thread of the process is blocked for good; this one only ever yields inconclusive
+const WATCHDOG: Duration = Duration::from_secs(60);
 
 /// Await `fut` with the 30 s watchdog. Paused runtime: virtual time only jumps when every task is parked => deadlock.
 async fn bounded<T>(fl: Flav, what: &str, fut: impl Future<Output = T>) -> Result<T, Fail> {
     match tokio::time::timeout(WATCHDOG, fut).await {
         Ok(v) => Ok(v),
         Err(_) if fl.paused() => fail("never_completes", format!("{what}: every task parked, 30 s of virtual time elapsed without completion")),
-        Err(_) => inconclusive(format!("{what}: 30 s wall-clock watchdog")),
+        Err(_) => inconclusive(format!("{what}: 60 s wall-clock watchdog")),
     }
 }
 fn zerr(s: &str) -> ZiporaError { ZiporaError::invalid_data(s) }
@@ -147,13 +149,15 @@ fn do_submit(sh: &Arc<Shared>, ex: &Arc<WorkStealingExecutor>, idx: usize) {
 
 /// Logical quiescence: no submit in flight, no task body running, every worker has >= k consecutive idle polls
 /// (the counters are zeroed by every submit and by every task start / end).
+static POLLERS: AtomicUsize = AtomicUsize::new(0);
+static POLL_CALLS: AtomicU64 = AtomicU64::new(0);
 async fn wait_stable(sh: &Shared, workers: usize, k: u64) -> Result<(), Fail> {
     let t0 = Instant::now();
     loop {
         if sh.inflight.load(SeqCst) == 0 && sh.running.load(SeqCst) == 0 && (0..workers).all(|w| IDLE[w].load(SeqCst) >= k) { return Ok(()); }
         if t0.elapsed() > WATCHDOG {
             let idle: Vec<u64> = (0..workers).map(|w| IDLE[w].load(SeqCst)).collect();
-            return inconclusive(format!("no quiescence within 30 s wall-clock: running={} inflight={} idle_polls={idle:?}", sh.running.load(SeqCst), sh.inflight.load(SeqCst)));
+            return inconclusive(format!("no quiescence within 60 s wall-clock: running={} inflight={} idle_polls={idle:?} accepted_not_run={}", sh.running.load(SeqCst), sh.inflight.load(SeqCst), (0..sh.slots.len()).filter(|&i| sh.state[i].load(SeqCst) == 1 && sh.slots[i].load(SeqCst) == 0).count()));
         }
         tokio::time::sleep(Duration::from_millis(1)).await;
     }
@@ -177,9 +181,14 @@ fn run_exec(c: &mut Case, p: ExecParams) -> Res {
     describe(c, &p);
     let seed = c.rng.next();
     hook_reset(seed, if matches!(p.flav, Flav::Mt(_)) { p.hook_pct } else { 0 });
+    // observers: threads outside the runtime that keep asking is_idle() / total_queued() while the executor works (the
+    // documented way to wait for an executor), so that the read-side locking runs concurrently with the workers
+    let mt = matches!(p.flav, Flav::Mt(_)); let pollers = if mt { c.rng.usize_below(3) } else { 0 }; c.input_str("pollers", &pollers.to_string());
+    POLLERS.store(pollers, SeqCst); POLL_CALLS.store(0, SeqCst);
     let rt = p.flav.build();
     let r = rt.block_on(exec_scenario(c, &p));
     drop(rt);
+    c.note("observer_calls", POLL_CALLS.load(SeqCst));
     HOOK_PCT.store(0, SeqCst);
     c.note("hook_loop_top", VIS_LOOP.load(SeqCst)); c.note("hook_submit_after_check", VIS_SUBMIT.load(SeqCst)); c.note("hook_idle_polls", IDLE_TOTAL.load(SeqCst)); c.note("hook_perturbed", PERTURBED.load(SeqCst));
     r
@@ -191,6 +200,9 @@ async fn exec_scenario(c: &mut Case, p: &ExecParams) -> Res {
     let sh = Arc::new(Shared { slots: (0..n).map(|_| AtomicU32::new(0)).collect(), state: (0..n).map(|_| AtomicU8::new(0)).collect(), specs: p.specs.clone(),
         running: AtomicUsize::new(0), inflight: AtomicUsize::new(0), doubles: AtomicU64::new(0), first_double: AtomicUsize::new(usize::MAX) });
     let mut res: Res = Ok(());
+    let stop = Arc::new(std::sync::atomic::AtomicBool::new(false)); let mut observers = Vec::new();
+    for _ in 0..POLLERS.load(SeqCst) { let (ex2, stop2) = (ex.clone(), stop.clone());
+        if let Ok(h) = std::thread::Builder::new().name("exec-observer".into()).spawn(move || { let mut n = 0u64; while !stop2.load(SeqCst) { let _ = ex2.is_idle(); let _ = ex2.total_queued(); n += 2; if n % 64 == 0 { std::thread::yield_now(); } } POLL_CALLS.fetch_add(n, SeqCst); }) { observers.push(h); } }
     'phases: for (pi, phase) in p.phases.iter().enumerate() {
         if p.submitters <= 1 {
             for (j, &idx) in phase.iter().enumerate() { do_submit(&sh, &ex, idx); if p.yield_every > 0 && (j + 1) % p.yield_every == 0 { tokio::task::yield_now().await; } }
@@ -210,6 +222,7 @@ async fn exec_scenario(c: &mut Case, p: &ExecParams) -> Res {
         res = check_quiescent(c, p, &ex, &sh, pi).await;
         if res.is_err() { break; }
     }
+    stop.store(true, SeqCst); for h in observers { let _ = h.join(); }
     let st = ex.stats(); c.note("steals", st.total_steals);
     let _ = ex.shutdown().await;
     res
@@ -841,6 +854,7 @@ fn other_targets(ctx: &mut Ctx) {
 
 pub fn run(ctx: &mut Ctx) {
     zipora::verif_hooks::set_sched_hook(Some(hook));
+    crate::ctx::enable_deadlock_probe(true);
     exec_targets(ctx);
     fiber_targets(ctx);
     other_targets(ctx);
